@@ -45,6 +45,19 @@ Theorem C12_too_long_refused : forall reg ids,
 Proof. exact append_too_long. Qed.
 Print Assumptions C12_too_long_refused.
 
+(* A reply to a call is sent through the caller's pipe: the reply's pipe is the request's pipe
+   (as the outer-most filters) followed by whatever the handler appended - for every reply,
+   error replies included, since the copy is made before the status is looked at. *)
+Theorem C12_reply_keeps_callers_pipe : forall reg req added,
+  exists q, reply_pipe reg req added = req ++ q.
+Proof. exact reply_pipe_keeps_request. Qed.
+Print Assumptions C12_reply_keeps_callers_pipe.
+
+Theorem C12_reply_pipe_is_callers_when_handler_adds_none : forall reg req,
+  reply_pipe reg req [] = req.
+Proof. exact reply_pipe_no_addition. Qed.
+Print Assumptions C12_reply_pipe_is_callers_when_handler_adds_none.
+
 (* Integrity filter, for any digest function with 16-byte output. *)
 Theorem C12_md5_accepts_iff : forall H, (forall x, length (H x) = 16) ->
   forall y d, md5_unpack H y = Some d <-> y = d ++ H d.
